@@ -110,6 +110,8 @@ def run(ctx: core.Ctx) -> int:
     m = projmodel.spdx_classes()
     special = sorted(k for k in m if m[k] in ("cur", "dep", "exc") and "." in k and k.rsplit(".", 1)[0] in m and not k.endswith("+"))
     special = [k for k in special if k in allids]
+    # ... and identifiers whose '+' form is itself on the list (GPL-2.0 / GPL-2.0+): ID+.txt then names a listed identifier
+    special += sorted(k for k in allids if (k + "+") in m)
     by_cls1 = {}
     for g in gens1:
         by_cls1.setdefault(g["slots"][0]["cls"], []).append(g)
@@ -137,7 +139,7 @@ def run(ctx: core.Ctx) -> int:
         evaluations=len(events),
         distinct_nontrivial=len({e["label"] for e in events if '/none/absent' not in e["label"]}),
         rule="slot = class(5) x use(11) x provision(7): complete for one slot (TLC) x several real identifiers per class, "
-             "TLC-sampled two-slot cases, identifiers that continue another identifier after a dot in every cell, thorough: every "
+             "TLC-sampled two-slot cases, identifiers that continue another identifier after a dot or whose '+' form is itself listed, in every cell, thorough: every "
              "identifier of the bundled SPDX lists once; non-trivial = the "
              "identifier is used or provided",
         mc_violations=mc_viol)
